@@ -32,7 +32,7 @@ def run(ctx):
     # thread wait for a disconnect or for space that the history says is already there
     ns = 3000 if ctx.quick else 40000
     chanlib.tie(ctx, "seq-differential", [h, "gen", "--seed", str(ctx.seed), "--cases", str(ns), "--mode", "seq", "--tier", ctx.tier], [drv])
-    n = 12000 if ctx.quick else 120000
+    n = 4000 if ctx.quick else 80000
     chanlib.liveness_tie(ctx, "conc-liveness", [h, "gen", "--seed", str(ctx.seed), "--cases", str(n), "--mode", "conc",
                                                 "--tier", ctx.tier], drv)
     chanlib.layer_b(ctx, LAYER_B)
